@@ -4,6 +4,8 @@ package main
 import (
 	_ "github.com/saucelabs/forwarder/verifharness/c01"
 	_ "github.com/saucelabs/forwarder/verifharness/c02"
+	_ "github.com/saucelabs/forwarder/verifharness/c03"
+	_ "github.com/saucelabs/forwarder/verifharness/c08"
 	_ "github.com/saucelabs/forwarder/verifharness/c16"
 	_ "github.com/saucelabs/forwarder/verifharness/c17"
 	_ "github.com/saucelabs/forwarder/verifharness/c20"
